@@ -302,7 +302,7 @@ Definition nego_cb (st : nego_state) (count : N) (data : list byte) : option (ne
   if ng_done st then Some (st, []) else
   let sending := ng_gottx st <? NEGO_LEN in
   let asked := if sending then NEGO_LEN - ng_gottx st else NEGO_LEN - ng_gotrx st in
-  if (count =? 0) || (asked <? count) then None else
+  if asked <? count then None else
   let rxh : option (list byte) :=
     if sending then (if (length data =? 0)%nat then Some (ng_rxhead st) else None)
     else if N.of_nat (length data) =? count then blit (ng_rxhead st) (N.to_nat (ng_gotrx st)) data else None in
